@@ -1,7 +1,7 @@
 (* C19 -- operation mode, export limit and DoD setters round-trip with their getters (encoder level: the full-time
    eco-mode groups; the setter / getter sequences are checked on the real classes against the simulated inverter). *)
 From Coq Require Import ZArith List Bool String.
-From GW Require Import Prelude PyStr PyFloat Sensors SensorProofs CodecProofs Settings TablesGen SettingsGen SettingsProofs Modes ModesGen ModesInst ModesProofs GuardedProofs.
+From GW Require Import Prelude PyStr PyFloat Sensors SensorProofs CodecProofs Settings TablesGen SettingsGen SettingsProofs Modes ModesGen ModesInst ModesProofs GuardedProofs ESModes ESModesProofs.
 Import ListNotations.
 Open Scope Z_scope.
 
@@ -78,6 +78,20 @@ Theorem C19_dt_export_limit_roundtrip_single_phase : forall r x, 0 <= x < 429496
                (forall a, a < fst w \/ fst w + snd w <= a -> r' a = r a).
 Proof. exact dt_export_limit_roundtrip_single_phase. Qed.
 
+(* ES family: the dispatcher ES.set_operation_mode as generated from the current source (no condition but the requested mode).  Every mode it
+   handles is refused outright or ends by commanding the work mode get_operation_mode maps back to the request (ECO for the emulated modes);
+   the emulated modes write eco-mode group 1 exactly once (charge / discharge as requested) and switch groups 2..4 off.  PARTIAL for ES: what the
+   mode helpers send before their last statement is not modelled (mode monitor over the real class). *)
+Theorem C19_es_modes_end_in_the_requested_work_mode_partial : forall m p, es_set_mode m = Some p ->
+  p = [EsUnsupported] \/ es_final es_helper_final p = Some (es_expected m).
+Proof. exact es_modes_end_in_the_requested_work_mode. Qed.
+Theorem C19_es_emulated_modes_write_group_one_once : forall (charge : bool) p,
+  es_set_mode (if charge then MEcoCharge else MEcoDischarge) = Some p ->
+  hd_error p = Some EsCheckRange /\ eco_groups p = [charge] /\
+  (forall id v, In (EsWrite id v) p -> v = 0 /\ In id ["eco_mode_2_switch"; "eco_mode_3_switch"; "eco_mode_4_switch"]%string) /\
+  (forall id, In id ["eco_mode_2_switch"; "eco_mode_3_switch"; "eco_mode_4_switch"]%string -> In (EsWrite id 0) p).
+Proof. exact es_emulated_modes_write_group_one_once. Qed.
+
 Print Assumptions C19_charge_group.
 Print Assumptions C19_discharge_group.
 Print Assumptions C19_v1_groups.
@@ -91,3 +105,5 @@ Print Assumptions C19_et_export_limit_roundtrip.
 Print Assumptions C19_et_dod_roundtrip.
 Print Assumptions C19_dt_export_limit_roundtrip_three_phase.
 Print Assumptions C19_dt_export_limit_roundtrip_single_phase.
+Print Assumptions C19_es_modes_end_in_the_requested_work_mode_partial.
+Print Assumptions C19_es_emulated_modes_write_group_one_once.
